@@ -53,6 +53,7 @@ META = {
     "VirtualTimeScheduler's queue discipline (C28/C29); state de-duplication drops only object addresses and pure logging counters "
     "(step stamps, action counters, queue insertion numbers renumbered order-preservingly)",
 }
+META["text"] += "; thread part: subscribers coming and going on two threads of one share()d / publish().ref_count() observable: never two source subscriptions, connected iff a subscriber is left"
 RULE = (
     "one BFS per (kind, source type, timeline); states = canonical heaps (SUT + scheduler queue + model + logs without step stamps) "
     "reached by histories over {sub(lowest free slot), unsub(i), connect, disconnect, tick, adv}; every transition is one execution "
